@@ -115,5 +115,25 @@ PROPS['C13'] = {
               'pending attempt at stop time is the recorded known finding',
 }
 
+PROPS['C12'] = {
+    'module': 'Yabgp.Props.C12',
+    'theorems': ['Yabgp.C12_writes_to_tracked', 'Yabgp.KF_C12_start_while_attempt_pending',
+                 'Yabgp.KF_C12_retry_while_attempt_pending', 'Yabgp.KF_C12_idlehold_after_late_connection_lost'],
+    'genagree': SESSION_GEN,
+    'suites': ['session'],
+    'cannot': SESSION_CANNOT + '; PARTIAL: the theorem proved for all states and events is "every message goes to the tracked '
+              'connection"; "at most one live connection" is false of the pinned code (three recorded known findings, witnessed '
+              'by KF_C12_* theorems) and outside those histories is decided by the BFS/walk oracle on the implementation, not by a theorem',
+}
+
+PROPS['C18'] = {
+    'module': 'Yabgp.Props.C18',
+    'theorems': ['Yabgp.C18_received_counted_once', 'Yabgp.C18_sent_counted_once', 'Yabgp.C18_increments_are_single'],
+    'genagree': SESSION_GEN,
+    'suites': ['session', 'framing'],
+    'cannot': SESSION_CANNOT + '; the theorems are per message / per send (exact increment, nothing else touches the counter); '
+              'the cumulative equality over a whole history is checked by the oracle against the transport write log',
+}
+
 # properties not claimed yet, with the reason that goes into MANIFEST.not_applicable
 NOT_YET = {}
